@@ -425,6 +425,13 @@ def templates(rng, w=None):
         m1 = ["bvv", 1 << r.randrange(w), w]
         for inner in (["and", m1, x, y], ["and", x, m1, y], ["and", x, y, m1], ["and", m1, x], ["and", x, m1], ["and", m1, ["and", x, y]], ["and", ["and", m1, x], y]):
             T += [[o, ["xor", inner, m1], ["bvv", 0, w]], [o, ["xor", m1, inner], ["bvv", 0, w]], [o, inner, m1], [o, inner, ["bvv", 0, w]]]
+    # operands that cancel or merge only after nested nodes were flattened: what is left must be reported as what is left
+    z = bvs("c", w)
+    k_ = c()
+    for o in ("xor", "and", "or", "add", "mul"):
+        T += [[o, [o, y, [o, k_, x]], x], [o, [o, x, y], x], [o, x, [o, y, x]], [o, [o, x, z], [o, z, y]], [o, [o, x, k_], [o, k_, y]], [o, [o, x, y], [o, y, x]]]
+        T += [[o, [o, sub(), x], x], [o, [o, x, ["bvv", 0, w]], y], [o, [o, [o, x, y], z], [o, x, z]]]
+    T += [["sub", ["add", x, y], y], ["add", ["sub", x, y], y], ["add", ["add", x, k_], ["neg", k_]], ["xor", ["xor", x, ["inv", y]], ["inv", y]]]
     T = [t for t in T if isinstance(t, list)]
     # the same shapes with a third operand put into one commutative two-operand node (rules that look at
     # args[0] / args[1] of a flattened node must not forget the rest)
